@@ -687,12 +687,20 @@ def s8(fx, chk, ms):
             if k_ == "block":
                 return leaves(e["expr"]) if "expr" in e else []
             return [e]
+        # bindings the returned struct literal takes its fields from
+        in_struct = set()
+        for n in order:
+            if n.get("k") == "struct":
+                for f_ in n.get("fields", []):
+                    for x, _ in hirq.walk(f_["e"]):
+                        if x.get("k") == "path" and x.get("res") == "local":
+                            in_struct.add(x.get("lid"))
         for nm, bs in names.items():
             for i, (lid, p_, isread) in enumerate(bs):
                 if i == 0 or isread:
                     continue
                 prev = [b for b in bs[:i] if b[0] in direct or b[0] in fills]
-                if not prev:
+                if not prev or lid not in in_struct:
                     continue
                 # a shadowing binding computed from the value it shadows (`let size = u64::from(size)`) keeps the stream's
                 # data; one with a branch that ignores it (`if all_equal { Vec::new() } else { sizes }`) replaces it
